@@ -828,6 +828,8 @@ fn gen_byz(seed: u64, prop: &str) -> Plan {
                 1 => 1002,
                 _ => b.rng.below(14) as u32,
             };
+            // (filters: two of the duplicated operator codes stand for the shifted batch)
+            let op = if kind == 4 && (op == 12 || op == 13) { 2002 } else { op };
             b.plan.peers[p].mutations.push(MutSpec {
                 kind,
                 ordinal: b.rng.below(if kind == 4 || kind == 7 { 12 } else { 4 }),
@@ -836,6 +838,17 @@ fn gen_byz(seed: u64, prop: &str) -> Plan {
             });
         }
         b.plan.peers[p].identity = 500 + p as u64;
+        if prop == "C06" {
+            // two shifted batches somewhere among the first answers (no draw from the stream)
+            for j in 0..2u64 {
+                b.plan.peers[p].mutations.push(MutSpec {
+                    kind: 4,
+                    ordinal: mix(&[seed, p as u64, j, 0x5f]) % 16,
+                    op: 2002,
+                    seed: mix(&[seed, p as u64, j, 0x60]),
+                });
+            }
+        }
     }
     connect_all(&mut b, 3_000);
     let until = b.rng.range(40_000, 200_000);
@@ -893,7 +906,9 @@ fn gen_byz(seed: u64, prop: &str) -> Plan {
         if b.rng.chance(2, 3) {
             for _ in 0..b.rng.range(1, 6) {
                 let at = b.rng.range(3_000, until);
-                add(&mut b.plan, at, Action::Inject { peer: 0, spec: InjectSpec { seed: b.rng.next_u64(), kind: 101 } });
+                // (one in three: the planted block is the peer's announced, never proven last state)
+                let kind = if mix(&[seed, at, 0x68]) % 3 == 0 { 104 } else { 101 };
+                add(&mut b.plan, at, Action::Inject { peer: 0, spec: InjectSpec { seed: b.rng.next_u64(), kind } });
                 for _ in 0..b.rng.range(1, 4) {
                     let later = at + b.rng.range(200, 20_000);
                     add(&mut b.plan, later, Action::Inject { peer: 0, spec: InjectSpec { seed: b.rng.next_u64(), kind: 102 } });
